@@ -26,7 +26,7 @@ import (
 	"verif/internal/model"
 )
 
-const rule = "cases: pairs (A, B) of identities; A from a model encoding of every permitted supported key-type pair (NULL/KEY certificate, 0-40 excess certificate bytes, padding random/zero/0xff/repeating), obtained through ReadDestination, ReadRouterIdentity, ReadRouterInfo and the constructors; after A was handed to CreateBlindedDestination, NewRouterIdentityFromKeysAndCert + AsDestination and NewLeaseSet2 it must still be the identity its bytes say; after A has been hashed and serialised once, a padding byte changed in place through the exported field, and the signing key replaced on a struct copy (hash, address, base64, Equals must follow the current bytes); B = A with one byte changed at any offset of the consumed bytes (kept when B still parses completely), a re-parse of A, or an independent identity. Oracle: Hash/IdentHash = SHA-256(model bytes) (crypto/sha256); Base32Address = own bit-level base32 of the hash, lower case, unpadded, 52 characters + .b32.i2p (60); Base64 decodes with the own base64 to the bytes; Equals/Equal <=> bytes equal; different bytes => different hash and address. Non-trivial: pair differs in padding, certificate payload or key bytes (B parsed); distinct by (A bytes, B bytes)."
+const rule = "cases: pairs (A, B) of identities; A from a model encoding of every permitted supported key-type pair (NULL/KEY certificate, 0-40 excess certificate bytes, padding random/zero/0xff/repeating), obtained through ReadDestination, ReadRouterIdentity, ReadRouterInfo and the constructors; after A was handed to CreateBlindedDestination, NewRouterIdentityFromKeysAndCert + AsDestination and NewLeaseSet2 it must still be the identity its bytes say; after A has been hashed and serialised once, a padding byte changed in place through the exported field, and the signing key replaced on a struct copy (hash, address, base64, Equals must follow the current bytes); KEY-certificate identities are also constructed twice from one key table (keys and padding as adjacent windows of one buffer with capacity to spare): after the first is serialised and hashed the second must still hash to SHA-256 of the specification encoding and the table must be untouched; B = A with one byte changed at any offset of the consumed bytes (kept when B still parses completely), a re-parse of A, or an independent identity. Oracle: Hash/IdentHash = SHA-256(model bytes) (crypto/sha256); Base32Address = own bit-level base32 of the hash, lower case, unpadded, 52 characters + .b32.i2p (60); Base64 decodes with the own base64 to the bytes; Equals/Equal <=> bytes equal; different bytes => different hash and address. Non-trivial: pair differs in padding, certificate payload or key bytes (B parsed); distinct by (A bytes, B bytes)."
 
 func TestMain(m *testing.M) { ev.Main(m, "C07", rule) }
 
@@ -140,6 +140,34 @@ func check(c Case, r *ev.Rec) error {
 		if !cd.Equals(dA) || !dA.Equals(cd) {
 			return fmt.Errorf("constructed and parsed Destination with equal bytes are not Equals")
 		}
+		// the same identity constructed twice from one key table (keys and padding are adjacent
+		// windows of one buffer with capacity to spare): using the first must leave the second
+		// - and the table - what they were
+		ka, kb, intact, err := libkeys.KACPair(idA)
+		if err != nil {
+			return fmt.Errorf("NewKeysAndCert rejected permitted arguments taken from a key table: %v", err)
+		}
+		d1, err1 := destination.NewDestination(ka)
+		d2, err2 := destination.NewDestination(kb)
+		if err1 != nil || err2 != nil {
+			return fmt.Errorf("NewDestination rejected permitted arguments taken from a key table: %v / %v", err1, err2)
+		}
+		b1, berr := d1.Bytes()
+		h1, herr := d1.Hash()
+		a1, aerr := d1.Base32Address()
+		_ = d1.Equals(dA)
+		if berr != nil || herr != nil || aerr != nil || !bytes.Equal(b1, encA) || h1 != sha256.Sum256(encA) {
+			return fmt.Errorf("Destination constructed from a key table: Bytes / Hash / Base32Address = %d bytes, %x, %q (%v %v %v), want the specification encoding and its SHA-256", len(b1), h1, a1, berr, herr, aerr)
+		}
+		h2, herr := d2.Hash()
+		b2, berr := d2.Bytes()
+		if herr != nil || berr != nil || h2 != sha256.Sum256(encA) || !bytes.Equal(b2, encA) {
+			return fmt.Errorf("second Destination constructed from the same key table hashes to %x over %d bytes (%v %v) after the first one was serialised and hashed; want SHA-256 of the specification encoding %x", h2, len(b2), herr, berr, sha256.Sum256(encA))
+		}
+		if err := intact(); err != nil {
+			return err
+		}
+		r.Class("constructed-from-key-table")
 	}
 	// the same identity obtained from differently framed buffers (standalone, followed by
 	// other data, embedded in a RouterInfo) is equal to itself
